@@ -13,7 +13,7 @@ TECHNIQUE = "model-based generation of lifecycle histories (hold-out split, reve
 RULE = (
     "parent: arity-2 screen, 4..24 rows, >=2 unobserved plates, few rows per sample/condition so that some sample or (treatment,dose) lives only in "
     "held-out rows; split by create_plate_balanced_holdout_set_among_masked_plates (or create_random_holdout, or the prepare_retrospective_simulation CLI) with drawn fraction/seed; history of 1..8 operations on the training "
-    "and test screens from {reveal(any unobserved ids, any order), mask, unmask, save+load, reveal_plate CLI}. After each step: name->id functions and both "
+    "and test screens from {reveal(any unobserved ids, any order), mask, unmask, save+load, reveal_plate CLI}; half of the saves go to a path that already holds the archive of another prepared simulation (same names, same table shapes, ids reversed). After each step: name->id functions and both "
     "mappings equal the parent's, predictions of a posterior sample sized by the parent's space equal those computed with the parent's ids. Non-trivial = "
     "history has >=1 reveal/mask/unmask on a stage whose rows do not cover the parent's mapping. distinct = distinct case JSON."
 )
@@ -74,6 +74,31 @@ def _functions(s):
         for c in range(tn.shape[1]):
             f_t[(str(tn[r, c]), float(td[r, c]))] = int(ti[r, c])
     return f_s, f_t
+
+
+def _occupy(path, s, control):
+    """the path already holds the archive of ANOTHER prepared simulation: same rows and names, same table shapes, but the ids
+    of its sample and treatment tables run the other way round (a re-run into an output directory used before)"""
+    from batchie.data import Screen
+
+    tn, td, ti = [np.asarray(x) for x in s.treatment_mapping]
+    sn, si = [np.asarray(x) for x in s.sample_mapping]
+    ti2 = ti.copy()
+    nz = ti != -1
+    if nz.any():
+        ti2[nz] = ti[nz].max() - ti[nz]
+    other = Screen(
+        treatment_names=np.asarray(s.treatment_names),
+        treatment_doses=np.asarray(s.treatment_doses),
+        sample_names=np.asarray(s.sample_names),
+        plate_names=np.asarray(s.plate_names),
+        observations=np.asarray(s.observations).copy(),
+        observation_mask=np.asarray(s.observation_mask).copy(),
+        control_treatment_name=control,
+        treatment_mapping=(tn, td, ti2),
+        sample_mapping=(sn, (si.max() - si) if len(si) else si),
+    )
+    other.save_h5(path)
 
 
 def check_case(case):
@@ -158,9 +183,12 @@ def check_case(case):
             treatment_mapping=p_tm,
             sample_mapping=p_sm,
         )
-        a = np.asarray(theta.predict_conditional_mean(s), dtype=float)
-        b = np.asarray(theta.predict_conditional_mean(oracle), dtype=float)
-        require(S.same_bits(a, b), tag + ".predictions_stable", lambda: "%s screen: predictions %r differ from those with the prepared ids %r" % (name, a.tolist(), b.tolist()))
+        if n_t > 0 and n_s > 0:
+            # (a space without any non-control treatment admits no posterior sample to predict with: control rows index an
+            # empty parameter array - the prediction differential is a device of this check and is skipped there)
+            a = np.asarray(theta.predict_conditional_mean(s), dtype=float)
+            b = np.asarray(theta.predict_conditional_mean(oracle), dtype=float)
+            require(S.same_bits(a, b), tag + ".predictions_stable", lambda: "%s screen: predictions %r differ from those with the prepared ids %r" % (name, a.tolist(), b.tolist()))
         own = Screen(
             treatment_names=np.asarray(s.treatment_names),
             treatment_doses=np.asarray(s.treatment_doses),
@@ -195,6 +223,9 @@ def check_case(case):
                 else:
                     a, b = tmp.fresh("in.h5"), tmp.fresh("out.h5")
                     paths += [a, b]
+                    if op["picks"][-1] % 2 == 0:
+                        _occupy(a, s, sc["control"])
+                        _occupy(b, s, sc["control"])
                     s.save_h5(a)
                     run_cli("reveal_plate", ["--screen", a, "--output", b, "--plate-id"] + ids)
                     s = Screen.load_h5(b)
@@ -205,6 +236,8 @@ def check_case(case):
             else:
                 a = tmp.fresh("s.h5")
                 paths.append(a)
+                if op["picks"][-1] % 2 == 0:
+                    _occupy(a, s, sc["control"])
                 s.save_h5(a)
                 s = Screen.load_h5(a)
             stages[name] = s
